@@ -19,7 +19,10 @@ RULE = ("Hypothesis-generated builder programs in the Fortran-supported subset (
         "the NumpyInterpreter's persistent variables, last yielded (value, time, time id) per component and next phase after "
         "the corresponding step, exactly; the module must compile, exit status 0, stderr empty except for the program's own "
         "Raise. Non-trivial = compiled and ran, and the program has a user-type variable, loop, guard, conditional "
-        "expression, >= 2 phases or an early exit; distinct by canonical JSON of (program, state, steps).")
+        "expression, >= 2 phases or an early exit; distinct by canonical JSON of (program, state, steps). Two further "
+        "generators: methods over two plain-array user types of different lengths with the same built-ins (len, norm_2, "
+        "elementwise_abs) and operations applied to both; and svd / linear_solve on small well-conditioned matrices whose "
+        "arguments are read again after the call (check sums exact, results within 1e-9 relative).")
 ASSUMPTIONS = ["exact (dyadic) values; a run is compared up to the first step in which the reference executor leaves the exact domain",
                "programs on which interpreter and reference executor disagree are attributed to C01 and skipped (counted)",
                "every persistent variable is assigned somewhere (kind inference needs that) and initialised through initialize()",
@@ -314,6 +317,127 @@ def twoplain_shard(ctx, n):
     hyp_explore(ctx, c12.twotype_cases(plain2=True), body, n, "twoplain")
 
 
+# ---------------------------------------------------------------- LAPACK-backed built-ins (inexact: tolerance)
+
+@st.composite
+def lapack_cases(draw):
+    kind = draw(st.sampled_from(["svd", "svd", "solve"]))
+    if kind == "svd":
+        rows, cols = draw(st.sampled_from([(2, 2), (3, 2), (2, 3), (3, 3), (1, 2), (2, 1)]))
+        vals = [draw(st.integers(-4, 4)) for _ in range(rows * cols)]
+        vals[0] = vals[0] or 3
+        return {"kind": kind, "rows": rows, "cols": cols, "a": vals, "steps": draw(st.integers(1, 2)),
+                "read_first": draw(st.booleans())}
+    n = draw(st.integers(1, 3))
+    k = draw(st.integers(1, 2))
+    a = [draw(st.integers(-2, 2)) for _ in range(n * n)]
+    for d in range(n):
+        a[d * n + d] = 8 + d            # diagonally dominant: well conditioned
+    b = [draw(st.integers(-4, 4)) for _ in range(n * k)]
+    return {"kind": kind, "rows": n, "cols": n, "a": a, "b": b, "bcols": k, "steps": draw(st.integers(1, 2)),
+            "read_first": draw(st.booleans())}
+
+
+def lapack_build(case):
+    from dagrt.language import CodeBuilder, DAGCode
+    na = len(case["a"])
+    with CodeBuilder(name="main") as cb:
+        cb("a", "<builtin>array(%d)" % na)
+        for i, v in enumerate(case["a"]):
+            cb("a[%d]" % i, repr(float(v) + 0.5 * (i % 2)))
+        if case["kind"] == "solve":
+            nb = len(case["b"])
+            cb("b", "<builtin>array(%d)" % nb)
+            for i, v in enumerate(case["b"]):
+                cb("b[%d]" % i, repr(float(v) + 0.25))
+        cb("<p>chk_a", "0")
+        cb("<p>chk_b", "0")
+        if case["read_first"]:
+            cb("<p>chk_a", "<p>chk_a + (i + 1)*a[i]", loops=[("i", 0, na)])
+        if case["kind"] == "svd":
+            cb(("u", "sigma", "vt"), "<builtin>svd(a, %d)" % case["cols"])
+            cb("<p>res", "sigma[0]")
+            cb("<p>res2", "<builtin>norm_2(sigma)")
+        else:
+            cb("x", "<builtin>linear_solve(a, b, %d, %d)" % (case["cols"], case["bcols"]))
+            cb("<p>res", "x[0]")
+            cb("<p>res2", "<builtin>norm_2(x)")
+            cb("<p>chk_b", "<p>chk_b + (i + 2)*b[i]", loops=[("i", 0, len(case["b"]))])
+        # the arguments are read again after the call: they must be what they were
+        cb("<p>chk_a", "<p>chk_a + (i + 1)*a[i]", loops=[("i", 0, na)])
+        cb("<t>", "<t> + <dt>")
+    return DAGCode.from_phases_list([cb.as_execution_phase("main")], "main")
+
+
+def check_lapack(case):
+    from dagrt.exec_numpy import NumpyInterpreter
+    info = {}
+    try:
+        dag = lapack_build(case)
+    except Exception as e:
+        return "CodeBuilder raised %s: %s" % (type(e).__name__, e), info
+    interp = NumpyInterpreter(dag, {})
+    interp.set_up(t_start=0.0, dt_start=1.0, context={})
+    isteps = []
+    for _ in range(case["steps"]):
+        try:
+            for evt in interp.run_single_step():
+                pass
+        except Exception as e:
+            info["skip"] = "interpreter error: %s: %s" % (type(e).__name__, str(e)[:60])
+            return None, info
+        isteps.append({n: interp.context[n] for n in ("<p>chk_a", "<p>chk_b", "<p>res", "<p>res2")})
+    try:
+        cg, text = F.generate(dag, 1)
+    except Exception as e:
+        return "fortran.CodeGenerator raised %s: %s" % (type(e).__name__, str(e)[:160]), info
+    fields = F.parse_state_type(text)
+    nm = cg.name_manager
+    init_args = [(k, v) for k, v in (("dagrt_t", 0.0), ("dagrt_dt", 1.0)) if k in fields]
+    res = F.compile_and_run(text, F.driver_source("m", fields, init_args, case["steps"]), libs=("lapack", "blas"))
+    info["compiled"] = res["compile_ok"]
+    if not res["compile_ok"]:
+        errs = [l for l in res["compile_out"].split("\n") if "Error" in l or "error" in l]
+        return "the generated module does not compile: %s" % (" | ".join(errs[:3]) or res["compile_out"][-300:]), info
+    if res["rc"] == "timeout":
+        return "the compiled stepper did not finish within 60 s", info
+    if res["stderr"].strip():
+        return "Fortran program wrote to stderr: %s" % res["stderr"].strip()[:300], info
+    fsteps, done = F.parse_dump(res["stdout"])
+    if res["rc"] != 0 or not done or len(fsteps) != len(isteps):
+        return "Fortran program ended with status %s after %d of %d steps" % (res["rc"], len(fsteps), len(isteps)), info
+    for k, (ist, fs) in enumerate(zip(isteps, fsteps)):
+        for n, v in sorted(ist.items()):
+            fv = fs.get(nm.name_global(n))
+            v = float(v)
+            if fv is None or isinstance(fv, tuple) or isinstance(fv, str):
+                return "after run() call %d: %s is %s in Fortran, %r in the interpreter" % (k + 1, n, B.show(fv), v), info
+            exact = n.startswith("<p>chk")
+            # the check sums of the inputs are exact (small dyadic numbers); singular values / solutions are
+            # compared with a relative tolerance (|res| for svd's first singular value: sign conventions do not matter there)
+            if exact and float(fv) != v:
+                return ("after run() call %d: %s is %r in Fortran, %r in the interpreter (weighted sum of the entries of "
+                        "an argument, read %s the call)" % (k + 1, n, float(fv), v, "before and after" if case["read_first"] else "after")), info
+            if not exact and abs(float(fv) - v) > 1e-9 * max(1.0, abs(v)):
+                return "after run() call %d: %s is %r in Fortran, %r in the interpreter (tolerance 1e-9)" % (k + 1, n, float(fv), v), info
+    info["steps_compared"] = len(isteps)
+    return None, info
+
+
+def lapack_shard(ctx, n):
+    def body(case):
+        msg, info = check_lapack(case)
+        if "skip" in info:
+            ctx.count("lapack skipped")
+            ctx.note(case, False, ["lapack_skipped"])
+            return
+        ctx.note(case, True, ["lapack_" + case["kind"]])
+        if msg is not None:
+            ctx.fail("lapack", case, msg, sig="lapack " + case["kind"] + " " + sig_of(msg))
+
+    hyp_explore(ctx, lapack_cases(), body, n, "lapack")
+
+
 def sig_of(msg):
     import re
     for key in ("does not compile", "CodeGenerator raised", "CodeBuilder raised", "did not finish", "wrote to stderr",
@@ -334,11 +458,13 @@ def sig_of(msg):
 def replay(sub, case):
     if sub == "twoplain":
         return check_twoplain(case)[0]
+    if sub == "lapack":
+        return check_lapack(case)[0]
     return check_case(case)[0]
 
 
 def shrink(sub, case):
-    if sub == "twoplain":
+    if sub in ("twoplain", "lapack"):
         return case
     from checks.c01 import shrink_method_case
     c = {"method": case["method"], "plan": {"max_steps": case["steps"]}}
@@ -388,6 +514,8 @@ def run(ctx):
     if ctx.quick:
         ctx.parallel(shard, 16, 64)
         ctx.parallel(twoplain_shard, 16, 6)
+        ctx.parallel(lapack_shard, 16, 3)
     else:
         ctx.parallel(shard, 16, 1500)
         ctx.parallel(twoplain_shard, 16, 300)
+        ctx.parallel(lapack_shard, 16, 150)
